@@ -1012,6 +1012,7 @@ func (db *DB) TruncateDatabase(ctx context.Context, size int64) (err error) {
 
 // truncateDatabase truncates the database to a given page count.
 func (db *DB) truncateDatabase(f *os.File, pageN uint32) (err error) {
+	verifPoint("truncateDatabase", db, pageN)
 	prevPageN := db.pageN.Load()
 
 	defer func() {
@@ -1110,6 +1111,7 @@ func (db *DB) WriteDatabaseAt(ctx context.Context, f *os.File, data []byte, offs
 
 // writeDatabasePage writes a page to the database file.
 func (db *DB) writeDatabasePage(f *os.File, pgno uint32, data []byte, invalidate bool) (err error) {
+	verifPoint("writeDatabasePage", db, pgno)
 	var prevChksum, newChksum ltx.Checksum
 	defer func() {
 		TraceLog.Printf("[WriteDatabasePage(%s)]: pgno=%d chksum=%s prev=%s %s", db.name, pgno, newChksum, prevChksum, errorKeyValue(err))
